@@ -166,7 +166,15 @@ def alphabet():
     ops.append(Op("insert-data-both", "INSERT DATA { %s GRAPH %s { %s } }" % (tri(T1), tt(G2), tri(T2)), "insert-data", quads=[(None, [T1]), (G2, [T2])], needs_dataset=True))
     ops.append(Op("delete-data-default", "DELETE DATA { %s }" % tri(T1), "delete-data", quads=[(None, [T1])]))
     ops.append(Op("delete-data-graph", "DELETE DATA { GRAPH %s { %s } }" % (tt(G1), tri(T1)), "delete-data", quads=[(G1, [T1])], needs_dataset=True))
+    T3 = (A, Q, B)
+    # the same graph named by two blocks of one quad pattern (the blocks accumulate)
+    ops.append(Op("insert-data-graph-twice", "INSERT DATA { GRAPH %s { %s } GRAPH %s { %s } GRAPH %s { %s } }" % (tt(G1), tri(T1), tt(G2), tri(T2), tt(G1), tri(T3)), "insert-data",
+                  quads=[(G1, [T1, T3]), (G2, [T2])], needs_dataset=True))
+    ops.append(Op("delete-data-graph-twice", "DELETE DATA { GRAPH %s { %s } %s GRAPH %s { %s } }" % (tt(G1), tri(T1), tri(T2), tt(G1), tri(T2)), "delete-data",
+                  quads=[(G1, [T1, T2]), (None, [T2])], needs_dataset=True))
     W = ("bgp", [(X, P, Y)])
+    ops.append(Op("modify-template-graph-twice", "INSERT { GRAPH %s { ?x %s ?y } GRAPH %s { ?y %s ?x } GRAPH %s { ?y %s ?y } } WHERE { ?x %s ?y }" % (tt(G1), tt(Q), tt(G2), tt(Q), tt(G1), tt(Q), tt(P)), "modify",
+                  where=W, insert=[(G1, [(X, Q, Y)]), (G2, [(Y, Q, X)]), (G1, [(Y, Q, Y)])], needs_dataset=True))
     ops.append(Op("delete-where-default", "DELETE WHERE { ?x %s ?y }" % tt(P), "modify", where=W, delete=[(None, [(X, P, Y)])]))
     ops.append(Op("delete-where-graph", "DELETE WHERE { GRAPH %s { ?x %s ?y } }" % (tt(G1), tt(P)), "modify", where=("graph", G1, W), delete=[(G1, [(X, P, Y)])], needs_dataset=True))
     ops.append(Op("delete-where-graphvar", "DELETE WHERE { GRAPH ?g { ?x %s %s } }" % (tt(P), tt(B)), "modify", where=("graph", GV, ("bgp", [(X, P, B)])),
